@@ -341,6 +341,11 @@ func (w *World) ingressDocs() []Doc {
 			k.Spec.DefaultBackend = &b
 		}
 		for _, r := range g.Rules {
+			if len(r) == 0 {
+				// a rule with a host only: its traffic goes to the default backend
+				k.Spec.Rules = append(k.Spec.Rules, netv1.IngressRule{Host: "only-host.example.com"})
+				continue
+			}
 			rule := netv1.IngressRule{Host: "example.com", IngressRuleValue: netv1.IngressRuleValue{HTTP: &netv1.HTTPIngressRuleValue{}}}
 			pt := netv1.PathTypePrefix
 			for _, b := range r {
